@@ -54,8 +54,12 @@ class LoopMachine(Machine):
         return self.merge(self.run_loop(st, s, cond, None, body, False))
 
     # ------------------------------------------------------------------
+    force_summary = False      # rules that reason per iteration ask for the inductive summary of every loop
+
     def run_loop(self, st, s, cond, inc, body, cond_first):
         entry = st.fork()
+        if self.force_summary and not getattr(self, 'quiet', False):
+            return self.summarise(entry, s, cond, inc, body, cond_first)
         try:
             return self.run_concrete(st, s, cond, inc, body, cond_first)
         except Undecided:
@@ -279,6 +283,7 @@ class LoopMachine(Machine):
             induct = cands
             # ---- probe run with the closed forms: where do symbolic-offset stores land?
             symstores = []
+            k2dom = None
             if smashed:
                 self.obs = {}
                 hp = entry.fork()
@@ -286,10 +291,16 @@ class LoopMachine(Machine):
                 log = []
                 self.store_log = log
                 hp.trace = ()
-                self.one_iteration(hp, cond, inc, body, cond_first)
+                pc, pb, pr, pe = self.one_iteration(hp, cond, inc, body, cond_first)
                 self.store_log = None
                 kterm = ('sym', 'iter:' + lid, 0, INF)
                 k2 = ('sym', 'iter2:' + lid, 0, INF)
+                # every iteration that executed started with the condition true: its index lies in the
+                # range the condition allows (taken from the states that assumed it)
+                k2dom = None
+                for s2 in list(pc) + list(pb) + [x for x, _ in pr]:
+                    d = s2.dom(kterm)
+                    k2dom = d if k2dom is None else k2dom.join(d)
                 for oid, key, n, ty, t in log:
                     if oid in smashed and key[0]:
                         sk = tuple((k2 if a == kterm else a, c) for a, c in key[0])
@@ -301,6 +312,29 @@ class LoopMachine(Machine):
         # ---- the recorded symbolic iteration
         h = entry.fork()
         self.apply_havoc(h, lid, mods, smashed, induct, entry)
+        if symstores and k2dom is not None:
+            h.refine(('sym', 'iter2:' + lid, 0, INF), Dom(k2dom.lo, k2dom.hi))
+            # tighten the "may have been written by an earlier iteration" region of each smashed object
+            # to the hull of its symbolic-offset stores
+            hull = {}
+            for oid, key, n in symstores:
+                lo_, hi_ = mem._sym_range(h, key[0], {})
+                if lo_ in (INF, -INF) or hi_ in (INF, -INF) or not isinstance(n, int):
+                    hull[oid] = None
+                    continue
+                a, b = lo_ + key[1], hi_ + key[1] + n
+                cur = hull.get(oid, (a, b))
+                if cur is not None:
+                    hull[oid] = (min(cur[0], a), max(cur[1], b))
+            for oid, hb in hull.items():
+                o = h.objs.get(oid)
+                if o is None or hb is None or not isinstance(o.ptr_fields, dict):
+                    continue
+                regs = o.ptr_fields.get('__regions__', ())
+                if regs and regs[-1][2] == 'loop:' + lid:
+                    pf = dict(o.ptr_fields)
+                    pf['__regions__'] = tuple(regs[:-1]) + ((((), int(max(0, hb[0]))), C(int(hb[1] - max(0, hb[0]))), 'loop:' + lid),)
+                    o.ptr_fields = pf
         for oid, key, n in symstores:
             o = h.objs.get(oid)
             if o is None:
@@ -312,6 +346,7 @@ class LoopMachine(Machine):
         h.trace = ()
         h.tags = dict(h.tags)
         live_before = set(oid for oid, o in h.objs.items() if o.heap and o.live)
+        iter_start = h.fork() if getattr(self, 'keep_iter_states', False) else None
         cont, brk, ret, exitf = self.one_iteration(h, cond, inc, body, cond_first)
         iter_traces = set()
         keep = getattr(self, 'keep_iter_states', False)
@@ -370,7 +405,7 @@ class LoopMachine(Machine):
             info[lid] = {'induction': {('%s%s' % (oid, key[1])): st_ for (oid, key), st_ in induct.items()},
                          'modified': sorted('%s+%s' % (oid, key[1]) for (oid, key) in mods),
                          'smashed': sorted(smashed), 'iter_traces': len(iter_traces), 'node': s,
-                         'iter_states': snap_states if keep else None,
+                         'iter_states': snap_states if keep else None, 'iter_start': iter_start,
                          'exit_states': len(exitf)}
         return outs
 
